@@ -3,6 +3,7 @@
 //! convx <V> <base> <module> <unit> <coef> <consA> <consS> <p1:..:p7> <v> <new(v).value> <Q{v}.get()> <new(v).get()>
 //! cplx  <V> <base> <module> <unit> <coef> <consA> <consS> <p1:..:p7> <re> <im> <norm> <new.re> <new.im> <get.re> <get.im> <rt.re> <rt.im>
 //! skip  <V> <base> <module> <unit>          the unit's coefficient is not representable in the storage type (panics)
+//! num   <V> <a> <Ratio<Si>::from(a).value> <V::from(Ratio<Si>{a})> <…Kgh> <…Kgh>      bare number <-> ratio (C15)
 //! xpow  <V> <coef> <e> <coef.powi(e)>       one factor of the base-unit combination (`n/d` for exact types, hex for complex)
 #![allow(non_camel_case_types, unused_macros, unused_imports, dead_code)]
 use std::io::Write;
@@ -146,9 +147,9 @@ macro_rules! cplx_q {
 
 macro_rules! some_quantities {
     ($m:ident, [$($pre:tt)*]) => {
-        $m!($($pre)* length, Length, [meter, kilometer, foot, inch, mile, angstrom, micron, centimeter]);
-        $m!($($pre)* mass, Mass, [kilogram, gram, pound, ounce, ton, grain]);
-        $m!($($pre)* time, Time, [second, minute, hour, day, nanosecond, year]);
+        $m!($($pre)* length, Length, [meter, kilometer, foot, inch, mile, angstrom, micron, centimeter, yottameter, yoctometer, zettameter]);
+        $m!($($pre)* mass, Mass, [kilogram, gram, pound, ounce, ton, grain, yoctogram, yottagram]);
+        $m!($($pre)* time, Time, [second, minute, hour, day, nanosecond, year, yoctosecond, zeptosecond, yottasecond]);
         $m!($($pre)* thermodynamic_temperature, ThermodynamicTemperature, [kelvin, degree_celsius, degree_fahrenheit, degree_rankine, millikelvin, kilokelvin]);
         $m!($($pre)* temperature_interval, TemperatureInterval, [kelvin, degree_celsius, degree_fahrenheit, degree_rankine, millikelvin]);
         $m!($($pre)* velocity, Velocity, [meter_per_second, kilometer_per_hour, mile_per_hour, knot, foot_per_second]);
@@ -157,7 +158,7 @@ macro_rules! some_quantities {
         $m!($($pre)* pressure, Pressure, [pascal, bar, atmosphere, psi, kilopascal]);
         $m!($($pre)* thermal_conductivity, ThermalConductivity, [watt_per_meter_kelvin, kilowatt_per_meter_kelvin]);
         $m!($($pre)* area, Area, [square_meter, hectare, acre, square_foot, square_kilometer]);
-        $m!($($pre)* volume, Volume, [cubic_meter, liter, gallon, cubic_inch, milliliter]);
+        $m!($($pre)* volume, Volume, [cubic_meter, liter, gallon, cubic_inch, milliliter, cubic_nanometer, cubic_gigameter]);
         $m!($($pre)* frequency, Frequency, [hertz, kilohertz, cycle_per_minute]);
         $m!($($pre)* electric_potential, ElectricPotential, [volt, millivolt, kilovolt]);
         $m!($($pre)* information, Information, [bit, byte, kibibyte, kilobyte]);
@@ -216,6 +217,38 @@ cplx_mod!(c64_cgs, Complex64, f64, "complex64", Cgs, "cgs");
 cplx_mod!(c32_kgh, Complex32, f32, "complex32", Kgh, "kgh");
 cplx_mod!(c32_si, Complex32, f32, "complex32", Si, "si");
 
+/// "A bare number converts to and from a ratio unchanged" (C15): `Ratio::from(a).value` and `V::from(Ratio{a})`
+macro_rules! num_val {
+    ($cx:ident, $V:ty) => {{
+        type V = $V;
+        let mut rng = Rng::new($cx.seed).fork(hash_str(<V as Val>::NAME) ^ 0x6e756d);
+        for k in 0..(4 * $cx.n) {
+            let a = <V as Val>::gen(&mut rng, k);
+            let to_si = g(|| uom::si::ratio::Ratio::<Si<V>, V>::from(a.clone()).value);
+            let from_si = g(|| V::from(uom::si::ratio::Ratio::<Si<V>, V> { dimension: PhantomData, units: PhantomData, value: a.clone() }));
+            let to_k = g(|| uom::si::ratio::Ratio::<Kgh<V>, V>::from(a.clone()).value);
+            let from_k = g(|| V::from(uom::si::ratio::Ratio::<Kgh<V>, V> { dimension: PhantomData, units: PhantomData, value: a.clone() }));
+            writeln!($cx.out, "num {} {} {} {} {} {}", <V as Val>::NAME, a.enc(), enc_opt(&to_si), enc_opt(&from_si), enc_opt(&to_k), enc_opt(&from_k)).unwrap();
+        }
+    }};
+}
+
+macro_rules! num_cplx {
+    ($cx:ident, $V:ty, $R:ty, $vname:expr) => {{
+        let mut rng = Rng::new($cx.seed).fork(hash_str($vname) ^ 0x6e756d);
+        let vals = float_values::<$R>(&mut rng, 8 * $cx.n, &[]);
+        for k in 0..(4 * $cx.n) {
+            let a = <$V>::new(vals[(k * 3 + 2) % vals.len()], vals[(k * 5 + 1) % vals.len()]);
+            let enc = |z: $V| format!("{}:{}", z.re.hex(), z.im.hex());
+            let to_si = uom::si::ratio::Ratio::<Si<$V>, $V>::from(a).value;
+            let from_si = <$V>::from(uom::si::ratio::Ratio::<Si<$V>, $V> { dimension: PhantomData, units: PhantomData, value: a });
+            let to_k = uom::si::ratio::Ratio::<Kgh<$V>, $V>::from(a).value;
+            let from_k = <$V>::from(uom::si::ratio::Ratio::<Kgh<$V>, $V> { dimension: PhantomData, units: PhantomData, value: a });
+            writeln!($cx.out, "num {} {} {} {} {} {}", $vname, enc(a), enc(to_si), enc(from_si), enc(to_k), enc(from_k)).unwrap();
+        }
+    }};
+}
+
 fn main() {
     silence_panics();
     let stdout = std::io::stdout();
@@ -248,6 +281,23 @@ fn main() {
         c64_cgs::run_all(&mut cx);
         c32_kgh::run_all(&mut cx);
         c32_si::run_all(&mut cx);
+    }
+    if which == "all" || which == "num" {
+        if cx.shard.0 == 0 {
+            num_val!(cx, f64);
+            num_val!(cx, f32);
+            num_val!(cx, BigRational);
+            num_val!(cx, Rational64);
+            num_val!(cx, BigInt);
+            num_val!(cx, BigUint);
+            num_val!(cx, i32);
+            num_val!(cx, i64);
+            num_val!(cx, u32);
+            num_val!(cx, u64);
+            num_val!(cx, isize);
+            num_cplx!(cx, Complex64, f64, "complex64");
+            num_cplx!(cx, Complex32, f32, "complex32");
+        }
     }
     cx.out.flush().unwrap();
 }
